@@ -17,6 +17,7 @@
 // 3. This notice may not be removed or altered from any source distribution.
 
 #include <assert.h>
+#include <atomic>
 
 #include "TaskScheduler.h"
 #include "LockLessMultiReadPipe.h"
@@ -311,6 +312,12 @@ void TaskScheduler::WaitForTasks( uint32_t threadNum )
 
 void TaskScheduler::WakeThreads(  int32_t maxToWake_ )
 {
+    // The task was published with plain stores; a full fence is needed before
+    // reading m_NumThreadsWaiting, otherwise the store to the pipe's write index
+    // can still sit in the store buffer while a stale 0 is read here, and a
+    // thread that has just registered in WaitForTasks (and saw an empty pipe)
+    // goes to sleep with the task in the pipe and nobody to wake it.
+    std::atomic_thread_fence( std::memory_order_seq_cst );
     if( maxToWake_ > 0 && maxToWake_  < m_NumThreadsWaiting )
     {
         SemaphoreSignal( m_NewTaskSemaphore, maxToWake_ );
